@@ -6,3 +6,5 @@ def check(rep, tier):
     from contracts import core_outgrads, core_rules
     core_outgrads.run(rep, tier)
     core_rules.run(rep, tier, parts=("defvjp", "defvjp_argnum"))
+    from contracts import rules_exact
+    rules_exact.run(rep, tier, rules_exact.CLAUSE_PROPS["C10"])
